@@ -1387,3 +1387,78 @@ func planC15(tier string, seed int64) (*Plan, error) {
 }
 
 func init() { Plans["C15"] = planC15 }
+
+// ---- C17 ----
+
+func planC17(tier string, seed int64) (*Plan, error) {
+	p := &Plan{MustReach: []string{"done", "table", "header-counted"}}
+	thorough := tier == "thorough"
+	tb, tbX, gfm, all := cfg("table", "", ""), cfg("table", "", "xhtml"), cfg("gfm", "", ""), cfg(allExt, "attr", "xhtml")
+	var jobs []interp.Job
+	add := func(c, lens, alpha string, kv ...interface{}) {
+		jobs = append(jobs, job("H_c17_tables", append([]interface{}{"cfg", c, "rows", 1, "lens", lens, "alpha", alpha}, kv...)...))
+	}
+	a5, a3, a3c, esc := "|-: a", "|-a", "|-:", "|a\\`"
+	add(tb, "3,3", a5)
+	add(tbX, "2,3", a5)
+	add(tb, "3,2", a5)
+	add(gfm, "1,1", a5)
+	add(tb, "4,4", a3)
+	add(tbX, "3,4", a3c)
+	add(tb, "5,3", a3)
+	add(tb, "3,3,3", a3)
+	add(tbX, "3,3,2,2", a3)
+	add(gfm, "2,3,4", a3)
+	// escaped pipes and code spans in header and body, concrete delimiter rows of 1-3 columns
+	add(tb, "3,0,4", esc, "delim", "-|-")
+	add(tbX, "4,0,3", esc, "delim", "|:-|-:|")
+	add(tb, "4,0,2", esc, "delim", "-")
+	add(all, "3,0,3,3", "|a\\", "delim", ":-:|-|-")
+	// in containers and after a paragraph line
+	add(tb, "3,3,2", a3, "container", "quote")
+	add(tbX, "3,3,2", a3, "container", "list")
+	add(gfm, "2,3,3,2", a3)
+	if thorough {
+		add(tb, "4,4", a5)
+		add(tb, "3,3,3", a5)
+		add(tb, "5,5", a3)
+		add(tb, "4,4,4", a3)
+		add(tb, "5,0,5", esc, "delim", "-|-")
+		add(tb, "3,0,3,3", "|a\\`", "delim", "|-|-|")
+		add(tb, "4,3,3", a3, "container", "quote")
+		add(tb, "4,3,3", a3, "container", "list")
+	}
+	// free-form and corpus
+	for n := 0; n <= 2; n++ {
+		jobs = append(jobs, job("H_c17_tables", "cfg", all, "n", n))
+	}
+	la := 6
+	if thorough {
+		la = 8
+	}
+	jobs = append(jobs, job("H_c17_tables", "cfg", tb, "n", la, "alpha", "a|-\n"), job("H_c17_tables", "cfg", gfm, "n", la, "alpha", "|-:\n "))
+	docs, err := LoadTxt(RepoDir + "/extension/_test/table.txt")
+	if err != nil {
+		return nil, err
+	}
+	nwin := 120
+	if thorough {
+		nwin = 0 // every position
+	}
+	jobs = append(jobs, windowJobs("H_c17_tables", docs, seed, nwin, 1, []string{tb, tbX, all})...)
+	if thorough {
+		jobs = append(jobs, windowJobs("H_c17_tables", docs, seed, 300, 2, []string{tb})...)
+	}
+	p.Jobs = jobs
+	p.Bounds = map[string]interface{}{
+		"T(table)":  "documents of 2-4 lines (header, delimiter, body rows; optionally a paragraph line first; optionally inside '> ' or '- '), every line a symbolic string of the listed length over the listed alphabet: (3,3),(2,3),(3,2),(1,1) over {|,-,:,space,a}; (4,4),(5,3),(3,3,3),(3,3,2,2),(2,3,4),(2,3,3,2) over {|,-,a}; (3,4) over {|,-,:}; header/body of 3-4 bytes over {|,a,\\,`} with concrete delimiter rows '-|-', '|:-|-:|', '-', ':-:|-|-' (escaped pipes, pipes in code spans); (3,3,2) over {|,-,a} in a quote and in a list item",
+		"free-form": fmt.Sprintf("S(2) all extensions; S(%d,{a,|,-,LF}) and S(%d,{|,-,:,LF,space})", la, la),
+		"W(C_tbl,1)": fmt.Sprintf("%d seeded (document of extension/_test/table.txt, offset) pairs with one symbolic byte (thorough: every offset, and 300 two-byte windows)", nwin),
+		"oracle":    "tree: one TableHeader first, every row has len(Alignments) cells, each cell carries its column's alignment; header and delimiter row are split independently by the harness (rows without backslash/backtick) and must have equal cell counts, delimiter colons must match the alignments; output: one thead with one row, every tr has as many th/td as columns, each cell's align/style attribute is its column's",
+		"outside":   "longer rows; a final empty cell directly before the closing pipe is read as goldmark reads it (not counted)",
+	}
+	p.Rule = "every Table node and every rendered table of every path is checked"
+	return p, nil
+}
+
+func init() { Plans["C17"] = planC17 }
